@@ -11,6 +11,8 @@ RESERVED_LIST = ["\t", "\n", "\r", "%", ";", "=", "&", ","] + [chr(i) for i in (
 KEYCHARS_FIRST = "abcdefghijklmnopqrstuvwxyzABCDEFGHIJKLMNOPQRSTUVWXYZ_"
 KEYCHARS_WORD = KEYCHARS_FIRST + "0123456789"
 KEYCHARS_FULL = KEYCHARS_WORD + ".-"
+# word-like keys outside ASCII (\w is Unicode-aware): legitimate tag names in GFF files
+NONASCII_KEYS = ["Név", "имя", "名前", "Größe", "ключ_2"]
 COMMON_KEYS = ["ID", "Name", "Parent", "Alias", "Note", "Dbxref", "gene_id", "transcript_id", "exon_number",
                "gene_name", "product", "Target", "Gap", "Ontology_term", "description", "tag"]
 SEQIDS = ["chr1", "chr2L", "Chr1", "CHR1", "chrX", "scaffold_12", "1", "10", "2", "MT", "chré", "染色体1", "ctg.7-b"]
@@ -40,7 +42,8 @@ def value(rng, escaped=True, blanks=True, nonascii=True, maxlen=10):
         elif r < 0.96 and escaped:
             out.append(rng.choice(RESERVED_LIST))
         elif not escaped:
-            out.append(rng.choice("%=&"))
+            # GTF has no escaping: '%', '=', '&' and even things that look like escapes are ordinary text
+            out.append(rng.choice(["%", "=", "&", "%41", "%20", "%3B", "%2C", "\\\\", "\\"]))
         else:
             out.append(rng.choice(PLAIN))
     v = "".join(out)
@@ -50,9 +53,21 @@ def value(rng, escaped=True, blanks=True, nonascii=True, maxlen=10):
     return v
 
 
-def key(rng, wordlike=True, used=()):
+def with_empty_items(rng, vals, D):
+    """Comma lists may hold empty items ('a,,b', 'a,', ',a'); not under repeated keys, where an empty value is a flag."""
+    if D["repeated"] or rng.random() > 0.06:
+        return vals
+    vals = list(vals)
+    vals.insert(rng.randrange(0, len(vals) + 1), "")
+    return vals
+
+
+def key(rng, wordlike=True, used=(), ascii_only=False):
     for _ in range(50):
-        if rng.random() < 0.6:
+        r = rng.random()
+        if r < 0.04 and not ascii_only:
+            k = rng.choice(NONASCII_KEYS)
+        elif r < 0.6:
             k = rng.choice(COMMON_KEYS)
         else:
             chars = KEYCHARS_WORD if wordlike else KEYCHARS_FULL
@@ -76,7 +91,7 @@ def attrs(rng, D, nmin=1, nmax=5, flags=True, force_multi=False, first_wordlike=
         if flags and r < 0.08 and not (i == 0 and D["fmt"] in ("gff3", "gff3q")):
             vals = []
         elif r < 0.30 and k not in single_valued:
-            vals = [value(rng, escaped=escaped, **valkw) for _ in range(rng.randrange(2, 4))]
+            vals = with_empty_items(rng, [value(rng, escaped=escaped, **valkw) for _ in range(rng.randrange(2, 4))], D)
         else:
             vals = [value(rng, escaped=escaped, **valkw)]
         out.append([k, vals])
@@ -91,6 +106,10 @@ def attrs(rng, D, nmin=1, nmax=5, flags=True, force_multi=False, first_wordlike=
 def columns(rng, dots=True, coords=None):
     if coords is not None:
         s, e = coords
+    elif rng.random() < 0.01:
+        # coordinates far beyond anything a float represents exactly
+        s = rng.choice([2 ** 53 + 1, 2 ** 61 + 12345, 9007199254740993, 4611686018427387903 - 5000])
+        e = s + rng.randrange(0, 5000)
     else:
         s = rng.randrange(1, 200000)
         e = s + rng.randrange(0, 5000)
